@@ -29,13 +29,13 @@ FUNCS_SERVER = ['core/src/server.rs: Server::add_version', 'Server::get_child_ve
 
 PROPS = {
     'C01': dict(
-        I=['c01.imem'],
+        I=['c'],
         K=dict(quick=['c01_step_n7_k0', 'c01_step_n7_k1', 'c01_step_n7_k2', 'c01_step_n7_k3', 'c01_walk_n4', 'c01_hist_k2'], thorough=['c01_step_n8_k0', 'c01_step_n8_k1', 'c01_step_n8_k2', 'c01_step_n8_k3', 'c01_walk_n6', 'c01_hist_k3']),
         S=dict(quick=['s_writes_addversion', 's_reads_byparent'], thorough=['s_reads_byparent', 's_writes_addversion', 's_reopen']),
         bounds='induction step from every REACH-shaped state with chain <= 7 (thorough 8), 2 clients, any request with any 128-bit ids; walk at chain <= 4 (6); histories of 2 (3) requests from the empty store',
     ),
     'C02': dict(
-        I=['c02.imem'],
+        I=['c'],
         K=dict(quick=['c02_cas_n7'], thorough=['c02_cas_n8']),
         S=dict(quick=['s_writes_addversion'], thorough=['s_writes_addversion']),
         bounds='every REACH-shaped state with chain <= 7 (8), 2 clients (known/unknown), arbitrary 128-bit parent and client id, payload <= 2 bytes',
@@ -58,14 +58,14 @@ PROPS = {
         bounds='one failing storage call (thorough: two) at any of the first 12 calls, failing before or (commit) after taking effect; any operation; chain <= 4 (7)',
     ),
     'C06': dict(
-        I=['c06.imem'],
+        I=['c'],
         H=['c06'],
         K=dict(quick=['c06_roundtrip_n3'], thorough=['c06_roundtrip_n3']),
         S=dict(quick=['s_blob'], thorough=['s_blob']),
         bounds='payload and snapshot of symbolic length 0..2 and symbolic bytes through the compiled Server and the SQLite glue; longer payloads (page boundaries up to 100 MiB) are outside the claim',
     ),
     'C07': dict(
-        I=['c07.imem'],
+        I=['c'],
         K=dict(quick=['c07_frame_n7_k0', 'c07_frame_n7_k2', 'c07_frame_n4_rd'], thorough=['c07_frame_n8_k0', 'c07_frame_n8_k2', 'c07_frame_n4_rd']),
         S=dict(quick=['s_writes_addversion', 's_reopen'], thorough=['s_writes_addversion', 's_reopen']),
         bounds='every REACH-shaped state with chain <= 7 (8), any later request of either client, every earlier version re-read',
@@ -76,7 +76,7 @@ PROPS = {
     ),
     'C09': dict(
         H=['c16'],
-        I=['c09.imem'],
+        I=['c'],
         K=dict(quick=['c09_nonint_n3'], thorough=['c09_nonint_n4']),
         S=dict(quick=['s_reads_byid', 's_reads_byparent'], thorough=['s_reads_client', 's_reads_snapdata', 's_reads_byparent', 's_reads_byid', 's_writes_newclient', 's_writes_snapshot', 's_writes_addversion']),
         bounds='two clients, one arbitrary request each, chain <= 4 (7); ids quoted by one client may be any id of the other',
@@ -86,13 +86,13 @@ PROPS = {
         bounds='every REACH-shaped chain <= 7 (8) (window of 5 exercised on both sides), existing snapshot at any position or none, arbitrary 128-bit v',
     ),
     'C11': dict(
-        I=['c11.imem'],
+        I=['c'],
         K=dict(quick=['c11_none_n7', 'c11_prev_n7', 'c11_interleaved_n2'], thorough=['c11_none_n8', 'c11_prev_n8', 'c11_interleaved_n4']),
         S=dict(quick=['s_reads_snapdata', 's_reads_byid', 's_writes_snapshot'], thorough=['s_reads_snapdata', 's_reads_byid', 's_writes_snapshot', 's_reads_client']),
         bounds='as C10, followed by the real get_snapshot and get_child_version; one interfering AddVersion/AddSnapshot at transaction granularity, chain <= 4',
     ),
     'C12': dict(
-        I=['c02.imem', 'c11.imem set_snapshot: metadata'],
+        I=['c'],
         M=True,
         K=dict(quick=['c12_wiring_n2'], thorough=['c12_wiring_n2']),
         S=dict(quick=['s_writes_addversion', 's_writes_snapshot'], thorough=['s_writes_addversion', 's_writes_snapshot']),
@@ -117,7 +117,7 @@ PROPS = {
     ),
     'C18': dict(
         H=['c15'],
-        I=['c18.imem'],
+        I=['c'],
         K=dict(quick=['c18_frame_n7_k0', 'c18_frame_n7_k1', 'c18_frame_n7_k2', 'c18_frame_n7_k3'], thorough=['c18_frame_n8_k0', 'c18_frame_n8_k1', 'c18_frame_n8_k2', 'c18_frame_n8_k3']),
         S=dict(quick=['s_reads_client', 's_reads_snapdata', 's_reads_byparent', 's_reads_byid'], thorough=['s_reads_client', 's_reads_snapdata', 's_reads_byparent', 's_reads_byid']),
         bounds='every REACH-shaped state with chain <= 7 (8), every request; all non-mutating outcomes',
